@@ -79,8 +79,8 @@ def eff : Expr → Eff
   | .field r _ => ⟨true, false, false, false, false⟩ ++ eff r
   | .setField r _ v => ⟨false, true, false, false, false⟩ ++ eff r ++ eff v
   | .uniLit _ _ e => eff e
-  | .ucase u _ => eff u
-  | .uget u _ => eff u
+  | .ucase u _ => ⟨true, false, false, false, false⟩ ++ eff u
+  | .uget u _ => ⟨true, false, false, false, false⟩ ++ eff u
   | .while c b => eff c ++ eff b
   | .forRange _ lo hi _ b => eff lo ++ eff hi ++ eff b
   | .forIn _ l b => ⟨true, false, false, false, false⟩ ++ eff l ++ eff b
